@@ -217,6 +217,32 @@ def check_generated(case):
         n3, nt3, hist = enumerate_prefixes(crlf, complete, hist=hist)
         n2 += n3
         nt2 += nt3
+    # the writer abandoned for real: the producing code stops (an exception, an early return), close() is never called
+    # and the object is garbage-collected - whatever the library does at that moment, the file must not read as a system
+    import gc
+    nrec = len(case["records"])
+    for k in sorted(set([0, 1, nrec // 2, nrec - 1, nrec])):
+        apath = env.fresh_path(".gro")
+        g = GroFile(apath, "w")
+        try:
+            with env.quiet():
+                if case["title"] is not None:
+                    g.comment = case["title"]
+                if case["format"] is not None:
+                    g.position_format = (case["format"] + 5, case["format"])
+                if case["declare"]:
+                    g.natoms = nrec
+                for r in case["records"][:k]:
+                    g.writeline(list(r))
+        except Exception:      # noqa: BLE001
+            pass
+        del g
+        gc.collect()
+        kind, res = try_read(apath)
+        judge(kind, res, True, complete, "abandoned writer after %d of %d records (%s count, no close)"
+              % (k, nrec, "declared" if case["declare"] else "undeclared"), hist)
+        n += 1
+        nt += 1
     # part-way through closing: with a declared count, close() after fewer records raises -
     # what it leaves behind must not read as a system either
     if case["declare"] and len(case["records"]) >= 2:
